@@ -812,16 +812,6 @@ func runCaseInner(c *caseT) string {
 	}
 
 	ack, rest := readAck(r.cli.snapshot())
-	if os.Getenv("C04_DIAG") != "" && ack == "ok" {
-		for _, m := range c.maps {
-			pm, err := w.mrepo.GetPortMapping(m.id)
-			if err == nil {
-				fmt.Fprintf(os.Stderr, "DIAG %s status=%s revoked=%v expires=%v lastActive=%v updated=%v\n", m.id, pm.Status, pm.IsRevoked, pm.ExpiresAt, pm.LastActive, pm.UpdatedAt)
-			} else {
-				fmt.Fprintf(os.Stderr, "DIAG %s err=%v\n", m.id, err)
-			}
-		}
-	}
 	att := "none"
 	if _, s, t, ok := w.sm.VerifBridgeEnds(tunnelID); ok {
 		if t == r.id {
